@@ -105,7 +105,7 @@ def build(cls, fields, cm, ident="self"):
         elif k == "_connection":
             v = build_conn(v, cm, "conn-of-" + ident)
         elif isinstance(v, dict) and "__obj__" in v:
-            continue
+            v = fake(v["__obj__"], k)          # a collaborator object (cooperator, manager ...): a recording stand-in
         object.__setattr__(o, k, v)
     return o
 
